@@ -74,6 +74,57 @@ def _action_kind(call, fparams, fi=None):
   return None
 
 
+def _eval_str_pred(e, fi, value):
+  """Evaluates a predicate over `node.attr` for one concrete attribute name:
+  None tests, startswith / endswith with constants, and/or/not, and matches of
+  a module-level compiled regular expression (the pattern is a constant of the
+  source; it is run with the standard library's re, never the package)."""
+  import re as _re
+  attr = fi.params()[0] + '.attr'
+
+  def val(x):
+    if core.norm(x) == attr:
+      return value
+    raise ValueError
+  try:
+    if isinstance(e, ast.BoolOp):
+      vs = [_eval_str_pred(v, fi, value) for v in e.values]
+      if any(v is None for v in vs):
+        return None
+      return all(vs) if isinstance(e.op, ast.And) else any(vs)
+    if isinstance(e, ast.UnaryOp) and isinstance(e.op, ast.Not):
+      v = _eval_str_pred(e.operand, fi, value)
+      return None if v is None else (not v)
+    if isinstance(e, ast.Compare) and len(e.ops) == 1 and isinstance(
+        e.ops[0], (ast.Is, ast.IsNot)) and isinstance(e.comparators[0], ast.Constant) \
+        and e.comparators[0].value is None:
+      val(e.left)
+      return isinstance(e.ops[0], ast.IsNot)
+    if isinstance(e, ast.Call) and isinstance(e.func, ast.Attribute):
+      m = e.func.attr
+      if m in ('startswith', 'endswith') and len(e.args) == 1 and isinstance(
+          e.args[0], ast.Constant):
+        return getattr(val(e.func.value), m)(e.args[0].value)
+      if m in ('match', 'search', 'fullmatch') and len(e.args) == 1:
+        pat = None
+        if isinstance(e.func.value, ast.Name):
+          c = fi.module.assigns.get(e.func.value.id)
+          if isinstance(c, ast.Call) and core.dotted(c.func) == 're.compile' and \
+              c.args and isinstance(c.args[0], ast.Constant):
+            pat = c.args[0].value
+          arg = e.args[0]
+        elif core.norm(e.func.value) == 're' and False:
+          pass
+        if pat is not None:
+          return getattr(_re.compile(pat), m)(val(arg)) is not None
+      if core.norm(e.func.value) == 're' and m in ('match', 'search', 'fullmatch') and \
+          len(e.args) == 2 and isinstance(e.args[0], ast.Constant):
+        return getattr(_re, m)(e.args[0].value, val(e.args[1])) is not None
+  except ValueError:
+    return None
+  return None
+
+
 def check(model, rep, tier):
   rep.not_decided = ('how exotic callables classify at run time (inspect '
                      'predicates are trusted); warning text')
@@ -186,6 +237,50 @@ def check(model, rep, tier):
       else:
         rep.violation('CALL-FAITHFUL', site, 'unexpected derivation of the '
                       'arguments passed to the converted function', line=n.lineno)
+  # what is converted and what it is called with, per kind of callable
+  # (path-wise symbolic values at the conversion call)
+  from sa import pathsym
+  conv_calls = [st for st in ast.walk(cc.node) if isinstance(st, ast.Assign) and isinstance(
+      st.value, ast.Call) and core.dotted(st.value.func) == '_convert_actual']
+  execs = [c for v_ in actions.values() for k_, c in v_ if k_ == 'execute']
+  ok = len(conv_calls) == 1 and bool(execs) and isinstance(
+      conv_calls[0].value.args[0], ast.Name)
+  pairs_seen = []
+  if ok:
+    tname = conv_calls[0].value.args[0].id
+    st_args = [a.value for a in execs[0].args if isinstance(a, ast.Starred)]
+    ok = len(st_args) == 1 and isinstance(st_args[0], ast.Name)
+  if ok:
+    ename = st_args[0].id
+    probe = ast.Tuple(elts=[ast.Name(id=tname, ctx=ast.Load()),
+                            ast.Name(id=ename, ctx=ast.Load())], ctx=ast.Load())
+    for conds, val in pathsym.path_values(cc.node, conv_calls[0], probe):
+      ctexts = [(pol, core.norm(t)) for pol, t in conds]
+      is_obj = any(pol == 'T' and "hasattr(f.__class__, '__call__')" in t
+                   for pol, t in ctexts)
+      is_fn = any(pol == 'T' and 'inspect.isfunction(f)' in t for pol, t in ctexts)
+      if not isinstance(val, ast.Tuple) or len(val.elts) != 2:
+        ok = False
+        continue
+      tv, ev = core.norm(val.elts[0]), core.norm(val.elts[1])
+      if is_obj and not is_fn:
+        pairs_seen.append(('callable-object', tv, ev))
+        # special-method lookup: type(f).__call__, with the object itself first
+        if (tv, ev) != ('f.__class__.__call__', '(f,) + args') and (tv, ev) != (
+            'type(f).__call__', '(f,) + args'):
+          ok = False
+      elif is_fn:
+        pairs_seen.append(('function-or-method', tv, ev))
+        if tv != 'f' or ev not in ('args', "(getattr(f, '__self__', None),) + args"):
+          ok = False
+  rep.check(ok, 'CALL-FAITHFUL', '%s:target-and-arguments' % cc.site,
+            'a function / method is converted as it is (its __self__ prepended); '
+            'a callable object is converted through the __call__ of its *class* '
+            'with the object as first argument -- `obj.__call__` is an ordinary '
+            'attribute lookup and finds instance attributes and metaclass '
+            'methods that calling the object never uses',
+            {'pairs': sorted(set(pairs_seen))[:6]}, line=cc.node.lineno,
+            witness='an object with an instance attribute named __call__')
   # _call_unconverted body
   def kw_atom(e):
     t = core.norm(e)
@@ -356,6 +451,43 @@ def check(model, rep, tier):
             '%s:std-module-list' % iu.site,
             'documented std modules must stay permanently allowed',
             {'listed': sorted(listed)}, line=iu.node.lineno)
+  # membership in a standard-library module is an *identity* question
+  km = model.func(CONVN, '_is_of_known_loaded_module')
+  kp = km.params()[0]
+  ident = [c for c in ast.walk(km.node) if isinstance(c, ast.Compare) and any(
+      isinstance(o, (ast.Is, ast.IsNot)) for o in c.ops) and kp in (
+          core.norm(c.left), core.norm(c.comparators[0]))
+           and not any(isinstance(x, ast.Constant) and x.value is None
+                       for x in [c.left] + c.comparators)]
+  equal = [core.norm(c) for c in ast.walk(km.node) if isinstance(c, ast.Compare) and any(
+      isinstance(o, (ast.In, ast.NotIn, ast.Eq, ast.NotEq)) for o in c.ops) and
+           core.norm(c.left) == kp]
+  rep.check(bool(ident) and not equal, 'CALL-POLICY', '%s:identity-not-equality' % km.site,
+            'a callable is "part of a builtin module" when it *is* one of the '
+            'module\'s attributes; `in` / `==` run the user\'s __eq__ against '
+            'every attribute: an object with a permissive or raising __eq__ is '
+            'never converted, or the call fails', {'equality_tests': equal},
+            line=km.node.lineno, witness='a callable whose __eq__ builds an expression object')
+  # mangled attribute names are rejected exactly when Python mangles them
+  uf = model.func('malt/core/unsupported_features_checker.py',
+                  'UnsupportedFeaturesChecker.visit_Attribute')
+  ifs = [i for i in ast.walk(uf.node) if isinstance(i, ast.If) and any(
+      isinstance(x, ast.Raise) for b in i.body for x in ast.walk(b))]
+  verdicts = {}
+  ok = len(ifs) == 1
+  if ok:
+    for name in ('__x', '__x_', '__x__', '__', '___', '_x', 'x__', 'x', '__a_b', '__a__b',
+                 '__ab_', '____'):
+      verdicts[name] = _eval_str_pred(ifs[0].test, uf, name)
+    # Python: mangled iff it starts with two underscores and does not end with two
+    ok = all(v is not None and v == (n.startswith('__') and not n.endswith('__'))
+             for n, v in verdicts.items())
+  rep.check(ok, 'CALL-POLICY', '%s:mangled-names' % uf.site,
+            'private names (`__x`, also `__x_`) are mangled by the compiler and '
+            'cannot be converted: they must be rejected here, so that the '
+            'function falls back to running unconverted',
+            {'rejects': {k: v for k, v in verdicts.items()}}, line=uf.node.lineno,
+            witness='a method reading self.__id_')
   tg = true_guards(ia)
   for name, toks in (('rule-do-not-convert', ['DO_NOT_CONVERT']),
                      ('generator-function', ['isgeneratorfunction']),
